@@ -1081,6 +1081,9 @@ def chain_moderate(b, X, ctx, spec=None, bound=6.0):
                 if not bool(torch.isfinite(z).all()):
                     return False
             return True
+        if spec["t"] == "multiscale":
+            # stage 0 sees the whole input; later stages see what earlier ones emit (checked on stage 0 only, plus finiteness)
+            return chain_moderate(b.parts[0], X, ctx, spec["parts"][0], bound) if b.parts else True
         if spec["t"] == "compositecdf" and not _compositecdf_ok(b.module, X):
             return False
         if spec["t"] == "inverse" and spec["of"]["t"] == "compositecdf" and not _compositecdf_ok(b.module._transform, X, True):
